@@ -332,4 +332,57 @@ def r4(F, R):
     R.floor(2)
 
 
-RULES = [("R1", r1, ["default", "all"]), ("R2", r2, ["zoo:default"]), ("R3", r3, ["zoo:default"]), ("R4", r4, ["zoo:default"])]
+def r5(F, R):
+    """Capture groups are handed over one by one; several groups are merged into one argument only for the reserved `__<n>_..` names
+    that a Cucumber Expression parameter with several groups expands to — never for the user's own named groups.  In every
+    expansion, the closure that computes the merge prefix (`split_at`) is applied only to names passing a `starts_with("__")` test
+    (as an `Option::filter` before the `map`, or as a guard inside)."""
+    if "cucumber_verif_zoo" not in F.crates:
+        return
+    n = 0
+    for b in sorted(F.bodies.values(), key=lambda x: x.span or ""):
+        if b.crate != "cucumber_verif_zoo":
+            continue
+        for s, t in b.calls(lambda t: callee_is(t, r"::split_at$")):
+            n += 1
+            ok = False
+            # guard form: the split is under `n.starts_with("__")`
+            for g in A.guards_of(b, s):
+                d = g.cond_def()
+                if d and d[0] == "call" and callee_is(d[2], r"str::<impl str>::starts_with$|::starts_with$") and any(const_str(a) == "__" for a in d[2]["args"]) and g.polarity() is True:
+                    ok = True
+            cc = A.closure_creation(F, b) if not ok else None
+            if cc is not None:
+                P, cs, st = cc
+                uses, _ = A.forward_uses(P, st["pl"]["l"])
+                for u in uses:
+                    us = u[0]
+                    if us.idx != "T":
+                        continue
+                    term = P.blocks[us.bb]["term"]
+                    if term["k"] != "call" or not callee_is(term, r"Option::<.*>::(map|and_then)$"):
+                        continue
+                    for _, c in A.receiver_chain(P, term["args"][0]):
+                        if callee_is(c, r"Option::<.*>::filter$"):
+                            kb = A.closure_of_operand(F, P, c["args"][1])
+                            if kb is not None and any(callee_is(t2, r"::starts_with$") and any(const_str(a) == "__" for a in t2["args"]) for _, t2 in kb.calls()) and \
+                                    not any(callee_is(t2, r"ops::Not::not$") for _, t2 in kb.calls()):
+                                ok = True
+            top = F.root_fn(b)
+            fn_name = None
+            for nb in F.nested(top):
+                for _, t2 in nb.calls():
+                    if callee_path(t2) in ZOO:
+                        fn_name = callee_path(t2)
+            R.check(ok, f"merge-only-reserved-names/{fn_name or top.short[-30:]}", s, "prefix only for names starting with `__`",
+                    "groups are merged by name prefix for ANY named group: a user's `(?P<x>..)` / `(?P<user>..)(?P<user2>..)` groups are merged or make the step panic")
+    R.floor(8)
+
+
+def r6(F, R):
+    """`World::collection()` keeps every registered function when the collection (or a runner holding it) is cloned: the hand-written
+    `Collection::clone` fills each keyword's map from the like-named map (C17.R1's clause)."""
+    roles.check_field_faithful_clone(F, R, "step::Collection", "collection")
+
+
+RULES = [("R1", r1, ["default", "all"]), ("R2", r2, ["zoo:default"]), ("R3", r3, ["zoo:default"]), ("R4", r4, ["zoo:default"]), ("R5", r5, ["zoo:default"]), ("R6", r6, ["default", "all"])]
